@@ -278,6 +278,7 @@ pub fn c04_req(ctx: &mut Ctx, log: &mut Log, im: &mut Impl, or: &mut Oracle) {
                 let r0 = ex(log, im, "req.peek");
                 let o = ex(log, im, "req.into_stream");
                 if o.starts_with("ok ") && field(&o, "outbuf") != Some("-") { or.fail(format!("into_stream_parser handed over a non-empty output buffer ({}): replies already emitted would be sent again", field(&o, "outbuf").unwrap_or("?").chars().take(40).collect::<String>()), log.replay_block(), "C04:handover-output".into()); }
+                if o.starts_with("panic") { or.fail("into_stream_parser panicked on a finished request parser".into(), log.replay_block(), "C04:handover-panic".into()); }
                 or.count("conversions_into_stream_parser");
                 r0
             } else { ex(log, im, "req.into_request") };
